@@ -24,3 +24,15 @@ pub fn vx_unreachable() -> !
 pub fn vx_assert(c: bool)
     requires c
 { assert!(c) }
+
+/// TRUSTED (meta-assumption made explicit): executable Rust without I/O, randomness or address
+/// observation is deterministic, so an observable of a call's result is a mathematical function of
+/// the call's arguments. `det_nat(tag, input)` names that function for the call site `tag`.
+/// Sound only when `observed` really is computed from `input` alone by the tagged call.
+pub uninterp spec fn det_nat(tag: int, input: Seq<char>) -> nat;
+
+#[verifier::external_body]
+pub proof fn axiom_exec_deterministic(tag: int, input: Seq<char>, observed: nat)
+    ensures observed == det_nat(tag, input)
+{
+}
